@@ -166,6 +166,18 @@ def check_help(cx, rep):
     if rows is not None:
         need('meta_name_value_2_where_predicates_bool', 'p=literal', rows, lambda ks: 'Expr::Lit' in ks, lambda v: v == 'WherePredicatesOrBool::from_lit(&lit.lit)',
              '`bound = <literal>` must go through the same from_lit as the list form')
+    # `bound = v` and `bound(v)`: the list form is parsed by `impl Parse for WherePredicatesOrBool` (literal first — bool and string
+    # through the same from_lit as the name-value form —, then `*`, then a predicate list): BOUND-MAP of C12
+    from .c12 import check_parse_forms as _cpf
+    from ..report import Report as _R
+    sub = _R(rep.prop)
+    _cpf(cx, sub)
+    for fnd in sub.findings:
+        if not any(x.key == fnd.key for x in rep.findings):
+            rep.findings.append(fnd)
+    for r_, i_, v_ in sub.checked:
+        rep.checked.append((r_, i_, v_))
+        rep.counts[r_] = rep.counts.get(r_, 0) + 1
     rep.floor('HELP', 35)
 
 
